@@ -27,11 +27,27 @@ def predictFirst (kind : String) (bytes : Bytes) : String :=
   | .ok _ => "resp"
   | _ => rejection kind
 
+/-- `via=raw` on a stream listener: the client's octets are the stream itself, so the 2-octet length prefix is
+the client's claim. The listener reads the prefix, then exactly that many octets (`ReadMsgFromTCP`, the gnet
+reassembly, the DoQ stream reader) and decodes them; an incomplete unit is waited for (the QUIC client has
+closed its sending side, so there the stream ends instead). `none` = nothing arrives while the client waits. -/
+def predictRaw (kind : String) (b : Bytes) : String :=
+  let incomplete := if kind == "quic" then "closed" else "none"
+  match b with
+  | h :: l :: rest =>
+    let n := h.toNat * 256 + l.toNat
+    if rest.length < n then incomplete
+    else if rest.length > n then "any"
+    else predictFirst kind rest
+  | _ => incomplete
+
 def runMalformed (case impl : String) : String × String :=
   let toks := words case
   match kvGet toks "kind", (kvGet toks "bytes").bind bytesOfHex with
-  | some kind, some b =>
-    let out := s!"first={predictFirst kind b} next=ok"
+  | some kind, some b0 =>
+    let raw := kvGet toks "via" == some "raw"
+    let b := if raw then (b0.drop 2).take ((b0.getD 0 0).toNat * 256 + (b0.getD 1 0).toNat) else b0
+    let out := if raw then s!"first={predictRaw kind b0} next=ok" else s!"first={predictFirst kind b} next=ok"
     let itoks := words impl
     let v :=
       if impl == "panic" then "viol:panic"
